@@ -164,6 +164,24 @@ def run(ck):
           "the clock is re-read after every sleep" if ok else
           "the scheduler does not re-read the clock after sleeping", mt, mt.node)
 
+    # ------------------------------------------------------------------ R07.6
+    R6 = ck.rule('R07.6', "the next wake-up is the first table entry that is NOT BEFORE the current "
+                 "time (equality included): an alarm whose time equals the clock reading at start / "
+                 "reload / reset is due now, not tomorrow", 'M0', 1)
+    searches = [x for x in own_nodes(mt.node) if isinstance(x, ast.Call) and
+                call_name(x) in ('bisect_left', 'bisect_right', 'bisect') and
+                len(x.args) >= 2 and norm(x.args[0]) == 'timetable']
+    ck.need(R6, len(searches) == 1, "_maintask: the time-table search is not a single bisect call "
+            "(unrecognised idiom)")
+    sc_ = searches[0]
+    okb = call_name(sc_) == 'bisect_left' and norm(sc_.args[1]) == 'nowt'
+    nowt_defs = [x for x in own_nodes(mt.node) if isinstance(x, ast.Assign) and norm(x.targets[0]) == 'nowt']
+    okb = okb and bool(nowt_defs) and all(norm(x.value) == 'nowdt.time()' for x in nowt_defs)
+    ck.ob(R6, f"{mt.fid} :: {norm1(sc_)}", okb,
+          "bisect_left(timetable, now): an entry equal to now is the next wake-up" if okb else
+          f"`{norm(sc_)}` skips an alarm whose time equals the current clock reading (its blocks "
+          f"stay stale until the next day)", mt, sc_)
+
     # ------------------------------------------------------------------ R07.3
     for q, store_attrs in ((TD, ('_times', '_dates', '_weekdays')), (TS, ('_span',))):
         ci = prog.cls(q)
